@@ -523,8 +523,10 @@ def c19(tier, seed):
         # each in both endiannesses
         cp = (pick_cfgs(NR, 2, seed + vi) | {18 + (seed + vi) % 6, 46 + (seed + vi) % 6}) if q else (pick_cfgs(NR, 4, seed + vi) | {18 + (seed + vi) % 6, 46 + (seed + vi) % 6})
         units += cfg_shards("copy-" + tag, "copy", NR, seed + vi, dict(rpaths=RP, wpaths=WP, full=0), pick=cp, variant=v)
+        # every code written alone: in the builds that check arguments, all of them (a code that hands a dirty
+        # argument to write_bits is wrong only there); a sample elsewhere
         units += cfg_shards("codes-" + tag, "codes", 15, seed + vi, dict(mode="alone", full=0),
-                            pick=pick_cfgs(15, 1 if q else 3, seed + vi), variant=v)
+                            pick=None if "checks" in v[1] and v[0] == "release" else pick_cfgs(15, 1 if q else 3, seed + vi), variant=v)
         # byte writes are cheap: every writer configuration in every variant
         units += cfg_shards("iow-" + tag, "wstates", NW, seed + vi, dict(paths=WP, ops="c12", full=0), variant=v)
         units += edge_units(tier, seed + vi, variant=v, n=3)
